@@ -1,4 +1,5 @@
 //! Sequential ADT drivers (B3 behaviour replay) — DESIGN.md §7.3.
+mod c13;
 mod c14;
 
 fn main() {
@@ -6,6 +7,7 @@ fn main() {
     let cmd = a.get(1).map(|s| s.as_str()).unwrap_or("");
     match cmd {
         "c14" => c14::main(),
+        "c13" => c13::main(),
         _ => {
             eprintln!("usage: vadt <c14|c13|c40|c42> [options]");
             std::process::exit(2);
